@@ -295,15 +295,17 @@ namespace GeographicLib {
     // 25 = ceil(log_2(2e7)) -- use half circumference here because
     // northing 195e5 is a legal in the "southern" hemisphere.
     static const real eps = ldexp(real(1), -(Math::digits() - 25));
+    // Clamp the tile indices (all legal ones are much smaller) so that the
+    // conversion to int is defined for any x and y
     int
-      ix = int(floor(x / tile_)),
-      iy = int(floor(y / tile_)),
+      ix = int(floor(fmax(real(-1000), fmin(real(1000), x / tile_)))),
+      iy = int(floor(fmax(real(-1000), fmin(real(1000), y / tile_)))),
       ind = (utmp ? 2 : 0) + (northp ? 1 : 0);
     if (! (ix >= mineasting_[ind] && ix < maxeasting_[ind]) ) {
       if (ix == maxeasting_[ind] && x == maxeasting_[ind] * tile_)
         x -= eps;
       else
-        throw GeographicErr("Easting " + Utility::str(int(floor(x/1000)))
+        throw GeographicErr("Easting " + Utility::str(floor(x/1000))
                             + "km not in MGRS/"
                             + (utmp ? "UTM" : "UPS") + " range for "
                             + (northp ? "N" : "S" ) + " hemisphere ["
@@ -316,7 +318,7 @@ namespace GeographicLib {
       if (iy == maxnorthing_[ind] && y == maxnorthing_[ind] * tile_)
         y -= eps;
       else
-        throw GeographicErr("Northing " + Utility::str(int(floor(y/1000)))
+        throw GeographicErr("Northing " + Utility::str(floor(y/1000))
                             + "km not in MGRS/"
                             + (utmp ? "UTM" : "UPS") + " range for "
                             + (northp ? "N" : "S" ) + " hemisphere ["
